@@ -136,3 +136,9 @@ Proof.
   apply (walker_children_total gen_walker_children gen_walker_iface_helpers).
   pose proof walker_children_ok as H. repeat (apply andb_prop in H; destruct H as [H ?]). exact H.
 Qed.
+
+(* runner.go / quasigo.go: a runner state that newRulesRunner is GIVEN is reset and has every function table that GetEvalEnv
+   copied into it copied again (UpdateEvalEnv) before it is used; a new state's environment comes from GetEvalEnv *)
+Lemma state_reuse_ok :
+  state_reuse_okb gen_evalenv_copied gen_evalenv_refreshed gen_state_reset gen_state_evalenv_from gen_state_var gen_given_state_calls = true.
+Proof. vm_compute. reflexivity. Qed.
